@@ -76,5 +76,5 @@ def run(tier, seed, replay=None):
              "passes; cubic Fit of data sampled from a function of the fit grid's spline space",
         assumptions=["Eigen's Householder QR is external: the implementation's second derivatives are certified by their exact residual (tolerance 1e-8 relative)",
                      "IEEE rounding not modelled; comparisons with tolerance 1e-8; Akima's degenerate-slope test (1e-15) is modelled as exact equality and such cases are not compared",
-                     "csg_resample is run in interpolation mode (linear, natural cubic, Akima with natural and periodic end slopes) on the input grid, finer, coarser, offset and wider grids with the derivative table; its fit mode (--fitgrid) and the periodic cubic boundary are not run; output rows that meet the first input abscissa only up to rounding are not judged for flags; the least-squares optimality of Fit is the KKT theorem of C06"],
+                     "csg_resample is run in interpolation mode (linear, natural cubic, Akima with natural and periodic end slopes) on the input grid, finer, coarser, offset and wider grids with the derivative table; its fit mode (--fitgrid) is run on data sampled from natural cubic splines on the fit grid (with and without points outside the fit grid, which are cut off) and has to reproduce them; the periodic cubic boundary is not run; output rows that meet the first input abscissa only up to rounding are not judged for flags; the least-squares optimality of Fit is the KKT theorem of C06"],
         trivial_tags=("resample-akima-degenerate-skipped",))
